@@ -163,6 +163,8 @@ fn one_source(rep: &mut Report, rng: &mut Rng, setup: &Setup, store: &mut Annota
         allow_simple: knob == 1,
         no_transposition: knob == 2,
         no_resegmentation: knob == 3,
+        // an id to give to the source side of the new transposition (not the id of an existing annotation)
+        source_side_id: if rng.chance(1, 3) { Some(format!("srcside{}", n)) } else { None },
         ..Default::default()
     };
     let ctx = |extra: Value| json!({"setup": sd, "source_side": from, "source_ranges": ranges, "source_has_id": with_id, "detail": extra});
